@@ -1,4 +1,4 @@
-// @unit id=v_streams props=C19,C17,C07,C15,C09,C08 tier=quick
+// @unit id=v_streams props=C19,C17,C07,C15,C09,C02,C08 tier=quick
 // Verus contracts on the REAL bodies of src/proto/streams/streams.rs `drop_stream_ref` and `maybe_cancel` (extracted on
 // every run): what happens when the application drops a handle on a stream (C19 "once the application has dropped its
 // handles the endpoint retains nothing", C17 implicit reset of a stream nobody listens to any more).
@@ -100,6 +100,12 @@ impl SStore {
             },
     { unimplemented!() }
 
+    /// a Ptr that goes out of scope (no obligation on the stream)
+    #[verifier::external_body]
+    pub fn put_back_any(&mut self, stream: Stream)
+        ensures final(self).held() == old(self).held() - 1,
+    { unimplemented!() }
+
     /// a Ptr that goes out of scope with the stream exactly as it was found
     #[verifier::external_body]
     pub fn put_back_same(&mut self, stream: Stream, s0: Ghost<Stream>)
@@ -191,6 +197,17 @@ impl Send {
             last_stream_id.0 <= old(self).max_stream_id.0 ==> r is Ok && final(self).max_stream_id == last_stream_id,
     { unimplemented!() }
 
+    /// Send::recv_connection_window_update / recv_stream_window_update (verified in units v_prioritize / v_send)
+    #[verifier::external_body]
+    pub fn recv_connection_window_update(&mut self, frame: WuFrame, store: &mut SStore, counts: &mut Counts) -> (r: Result<(), Reason>)
+        ensures final(store).held() == old(store).held(), final(counts).transitions@ == old(counts).transitions@,
+    { unimplemented!() }
+
+    #[verifier::external_body]
+    pub fn recv_stream_window_update(&mut self, sz: u32, buffer: &mut SendBuf, stream: &mut Stream, counts: &mut Counts, task: &mut Option<Waker>) -> (r: Result<(), Reason>)
+        ensures final(stream).id == old(stream).id, final(counts).transitions@ == old(counts).transitions@,
+    { unimplemented!() }
+
     /// Send::handle_error (verified in unit v_send): everything unsent is dropped, capacity returned; the state (already
     /// set by Recv::handle_error) is not touched
     #[verifier::external_body]
@@ -218,6 +235,14 @@ impl Send {
 }
 
 pub struct SendBuf { pub tag: u8 }
+
+/// frame::WindowUpdate, reduced
+#[derive(Clone, Copy)]
+pub struct WuFrame { pub stream_id: StreamId, pub size_increment: u32 }
+impl WuFrame {
+    pub fn stream_id(&self) -> (r: StreamId) ensures r == self.stream_id { self.stream_id }
+    pub fn size_increment(&self) -> (r: u32) ensures r == self.size_increment { self.size_increment }
+}
 
 /// frame::GoAway, reduced (debug data is carried into the error value, which is reduced as well: R5)
 pub struct GoAwayFrame { pub last_stream_id: StreamId, pub reason: Reason }
@@ -300,6 +325,16 @@ impl Recv {
 pub struct Actions { pub recv: Recv, pub send: Send, pub task: Option<Waker>, pub conn_error: Option<Error> }
 
 impl Actions {
+    /// Actions::reset_on_recv_stream_err (see unit v_recv): a stream error becomes RST_STREAM, or over the quota a
+    /// connection error; anything else passes through
+    #[verifier::external_body]
+    pub fn reset_on_recv_stream_err(&mut self, buffer: &mut SendBuf, stream: &mut Stream, counts: &mut Counts, res: Result<(), Error>) -> (r: Result<(), Error>)
+        ensures
+            final(counts).transitions@ == old(counts).transitions@,
+            !(res matches Err(Error::Reset(_, _, _))) ==> r == res,
+            res matches Err(Error::Reset(_, _, _)) ==> r is Ok || r == Err::<(), Error>(Error::GoAway(Reason::ENHANCE_YOUR_CALM, Initiator::Library)),
+    { unimplemented!() }
+
     /// Actions::ensure_not_idle: id rules of RFC 9113 5.1.1 (Kani units send_ids / recv_ids / inner_recv_reset_unknown_stream)
     #[verifier::external_body]
     pub fn ensure_not_idle(&mut self, peer: PeerDyn, id: StreamId) -> (r: Result<(), Reason>)
@@ -467,6 +502,30 @@ impl SInner {
     //@spec             && (old(self).store.spec_find(frame.stream_id) matches Some(s) && !s.is_pending_open)) ==> final(self).counts.transitions@ == old(self).counts.transitions@ + 1,
     //@spec         // at most one stream is transitioned, and the only errors are connection errors
     //@spec         final(self).counts.transitions@ <= old(self).counts.transitions@ + 1,
+    //@spec         r is Err ==> (r matches Err(Error::GoAway(_, Initiator::Library))),
+    //@end
+}
+
+impl SInner {
+    // C02 / C09: WINDOW_UPDATE from the peer.  Stream 0 => the connection window (an overflow is a connection error with
+    // the reason the flow-control layer reports); a stream still waiting to be opened => connection PROTOCOL_ERROR (frame on
+    // an idle stream); a known stream => an overflow resets THAT stream (stream error), the connection survives; an
+    // unknown stream => the idle rule decides.  No stream is transitioned or lost on any path.
+    //@extract src/proto/streams/streams.rs Inner::recv_window_update
+    //@subst_re fn recv_window_update<B>\(\s*&mut self,\s*send_buffer: &SendBuffer<B>,\s*frame: frame::WindowUpdate,\s*\) -> Result<\(\), Error>=>fn recv_window_update(&mut self, send_buffer: &mut SendBuf, frame: WuFrame) -> Result<(), Error>
+    //@subst_re let mut send_buffer = send_buffer\.inner\.lock\(\)\.unwrap\(\);\s*let send_buffer = &mut \*send_buffer;=>
+    //@subst .map_err(Error::library_go_away)=>.map_err_go_away()
+    //@subst if stream.is_pending_open {=>if stream.is_pending_open { self.store.put_back_any(stream);
+    //@subst_re \.map_err\(\|reason\| Error::library_reset\(id, reason\)\);=>; let res = match res { Ok(()) => Ok(()), Err(reason) => Err(Error::library_reset(id, reason)) };
+    //@subst_re return self\.actions\.reset_on_recv_stream_err\(\s*send_buffer,\s*&mut stream,\s*&mut self\.counts,\s*res,\s*\);=>let _r = self.actions.reset_on_recv_stream_err(send_buffer, &mut stream, &mut self.counts, res); self.store.put_back_any(stream); return _r;
+    //@ret r
+    //@spec     ensures
+    //@spec         final(self).store.held() == old(self).store.held(),
+    //@spec         final(self).counts.transitions@ == old(self).counts.transitions@,
+    //@spec         // C09: a WINDOW_UPDATE for a stream that was never announced to the peer is a connection error
+    //@spec         (frame.stream_id.0 != 0 && (old(self).store.spec_find(frame.stream_id) matches Some(s) && s.is_pending_open))
+    //@spec             ==> r == Err::<(), Error>(Error::GoAway(Reason::PROTOCOL_ERROR, Initiator::Library)),
+    //@spec         // the only errors that leave this function are connection errors (a stream error was turned into RST_STREAM)
     //@spec         r is Err ==> (r matches Err(Error::GoAway(_, Initiator::Library))),
     //@end
 }
